@@ -497,7 +497,10 @@ def invoke(fn, args: dict):
             kw.update(v)
         else:
             kw[p.name] = v
-    return fn(*pos, **kw)
+    r = fn(*pos, **kw)
+    if isinstance(r, vcrt.Coro):
+        r = r.run()
+    return r
 
 
 class Obligation:
